@@ -128,6 +128,7 @@ type gen struct {
 	deferred []*ssa.Defer
 	sweepFrames string // non-empty: frame sweep of this property; callees are called through their sweep frame contracts
 	ifaceCtrs []*Contract // contracts of interface methods this method implements (behavioural subtyping)
+	outerState *state // the state current when the outermost old(...) / state switch started (see loadLocal)
 	loopHavoc bool // the havoc in progress is a loop cut, not a call
 	stableCells []stableCell
 	astValid bool // assume theory ast-valid about go/ast node fields
